@@ -240,6 +240,35 @@ def _dst_pair(rng, std, delta, y0, y1, names, bounded, explicit=False):
     return [D, S], meta
 
 
+# regional families: every member switches at the same UTC instant (as the zones of the EU do), so members with
+# different standard offsets have the same rule text and DTSTARTs that denote the same instant with different
+# wall-clock times.  (month, n, weekday) of the DAYLIGHT and of the STANDARD onset, time of day in UTC (minutes).
+FAMILIES = [((3, -1, 6), (10, -1, 6), 60), ((4, 1, 6), (10, -1, 6), 120), ((3, 2, 6), (11, 1, 6), 180)]
+FAMILY_STD = [-60, 0, 60, 120, 180]
+FAMILY_Y0 = [1981, 1996]
+
+
+def _family_pair(rng, names):
+    (ms, ns, wds), (me, ne, wde), utc_min = rng.choice(FAMILIES)
+    std = rng.choice(FAMILY_STD)
+    dst = std + 60
+    y0 = rng.choice(FAMILY_Y0)
+    tods = divmod(utc_min + std, 60) + (0,)     # wall clock in TZOFFSETFROM = std
+    tode = divmod(utc_min + dst, 60) + (0,)     # wall clock in TZOFFSETFROM = dst
+    D = {"kind": "DAYLIGHT", "dtstart": _rule_onset(y0, ms, ns, wds, tods), "from": std, "to": dst, "name": names[1],
+         "rrule": {"bymonth": ms, "byday": [ns, WEEKDAYS[wds]], "until": None, "count": None}, "rdates": []}
+    S = {"kind": "STANDARD", "dtstart": _rule_onset(y0, me, ne, wde, tode), "from": dst, "to": std, "name": names[0],
+         "rrule": {"bymonth": me, "byday": [ne, WEEKDAYS[wde]], "until": None, "count": None}, "rdates": []}
+    meta = {"family": True}
+    if rng.random() < 0.3:
+        y1 = y0 + rng.randint(3, 20)
+        for ob, (m, n, wd), tod, frm in ((D, (ms, ns, wds), tods, std), (S, (me, ne, wde), tode, dst)):
+            u = datetime(*_rule_onset(y1, m, n, wd, tod)) - timedelta(minutes=frm)
+            ob["rrule"]["until"] = [u.year, u.month, u.day, u.hour, u.minute, u.second]
+        meta["until_styles"] = ["exact", "exact"]
+    return [D, S], meta
+
+
 def gen_definition(rng, tzid, allow_inconsistent=False):
     """A VTIMEZONE definition of the seeded family; returns (defn, meta)."""
     std = rng.choice(STD_OFFSETS)
@@ -249,7 +278,8 @@ def gen_definition(rng, tzid, allow_inconsistent=False):
     if rng.random() < 0.12:
         tag = tag[:2] + rng.choice("ÖÅÑ日")     # abbreviations are free text
     names = (tag + "ST", tag + "DT") if with_names else (None, None)
-    shape = rng.choice(["fixed", "open", "open", "bounded", "bounded", "explicit", "two-eras", "base+open", "rename"])
+    shape = rng.choice(["fixed", "open", "open", "bounded", "bounded", "explicit", "two-eras", "base+open", "rename",
+                        "family"])
     obs = []
     meta = {"shape": shape}
     base = {"kind": "STANDARD", "dtstart": rng.choice([[1970, 1, 1, 0, 0, 0], [1970, 1, 1, 0, 0, 0], [1601, 1, 1, 0, 0, 0],
@@ -259,6 +289,9 @@ def gen_definition(rng, tzid, allow_inconsistent=False):
         obs = [base]
         if rng.random() < 0.4:
             base["from"] = std + rng.choice([-60, 60, 30, -15])  # a one-off shift at the epoch
+    elif shape == "family":
+        obs, m = _family_pair(rng, names)
+        meta.update(m)
     elif shape == "open":
         obs, m = _dst_pair(rng, std, delta, rng.randint(1971, 2005), None, names, False)
         meta.update(m)
